@@ -328,13 +328,13 @@ pub fn run(run: &mut Run) {
         return;
     }
     // the identical workload in the dev profile
-    let dir = format!("{VERIF_DIR}/build/logs");
+    let dir = format!("{}/build/logs", verif_dir());
     let _ = std::fs::create_dir_all(&dir);
     let rel_path = format!("{dir}/C20.{}.release.log", run.tier);
     let dev_path = format!("{dir}/C20.{}.dev.log", run.tier);
     let _ = std::fs::write(&rel_path, log.join("\n") + "\n");
     let _ = std::fs::remove_file(&dev_path);
-    let dev_bin = format!("{VERIF_DIR}/target/debug/mv");
+    let dev_bin = format!("{}/target/debug/mv", verif_dir());
     let st = std::process::Command::new(&dev_bin)
         .args(["C20", "--tier", &run.tier, "--seed", &seed.to_string(), "--log-only", &dev_path])
         .status();
